@@ -174,5 +174,6 @@ pub fn spaces_c04(tier: &str, _seed: u64) -> Vec<Box<dyn Space>> {
     let (k, d) = if thorough { (6, 3) } else { (4, 2) };
     v.push(Box::new(super::faults::Schedules::new(k, d, super::faults::FJudge::C04)));
     v.push(Box::new(super::faults::ClockJumps { kmax: if thorough { 12 } else { 6 } }));
+    v.push(Box::new(super::faults::ClockResolves { resolves: if thorough { 5 } else { 2 } }));
     v
 }
